@@ -132,27 +132,105 @@ def offsets(chk):
         okz = isinstance(par, ast.If) and unparse(par.test) == 'cleaned'
         mdef = [d for d in defs if isinstance(d.value, ast.BinOp)]
         okz = okz and bool(mdef) and zs[0].lineno < mdef[0].lineno
+    if not okz and not zs and mname is not None:
+        # the zeroing as a pass of its own: under `if cleaned:`, before the summing loop, one store per sample of the same selection
+        for m in mk:
+            pre = [s_ for s_ in m.body if isinstance(s_, ast.For) and unparse(s_.iter) == unparse(L.iter) and isinstance(s_.target, ast.Name) and len(s_.body) == 1 and not s_.orelse]
+            if len(pre) == 1:
+                z_ = pre[0].body[0]
+                ab2 = pre[0].target.id
+                mask_first = any(isinstance(x_, ast.Assign) and unparse(x_.targets[0]) == mname and x_.lineno < pre[0].lineno for x_ in m.body)
+                okz = isinstance(z_, ast.Assign) and isinstance(z_.targets[0], ast.Subscript) and isinstance(z_.targets[0].value, ast.Subscript) \
+                    and unparse(z_.targets[0].value.value) == 'self.halos' and fs(z_.targets[0].value.slice, 'X', {ab2: 'X'}) == 'npoutX' \
+                    and unparse(z_.targets[0].slice) == mname and unparse(z_.value) == '0' and mask_first
+                if okz:
+                    zs = [z_]
     chk.check(okz, 'C01-R2', CAT, q, 'npout{AB}[cleaned-away] = 0 in place, before the lengths are summed', '',
               'cleaned-away halos keep their original particle count: their particles would appear twice (once here, once merged into another halo)',
               node=zs[0] if zs else L)
 
 
 # --------------------------------------------------------------------------- R3, R4, R8
+STATE = {}
+
+
 def call_site(chk):
     src = chk.src
     q = CLS + '_load_subsamples'
     fn = src.func(CAT, q)
     # innermost loop over files
+    # `for i, x in enumerate(self.superslab_inds)` is the loop over positions with x = self.superslab_inds[i] (x not re-bound in the body)
+    for n in walk_no_nested(fn):
+        if isinstance(n, ast.For) and unparse(n.iter) == 'enumerate(self.superslab_inds)' and isinstance(n.target, ast.Tuple) and len(n.target.elts) == 2 \
+                and all(isinstance(e_, ast.Name) for e_ in n.target.elts):
+            i_, x_ = n.target.elts[0].id, n.target.elts[1].id
+            if not any(isinstance(m_, ast.Name) and m_.id in (x_, i_) and isinstance(m_.ctx, ast.Store) for b_ in n.body for m_ in ast.walk(b_)):
+                class SubX(ast.NodeTransformer):
+                    def visit_Name(s_, m_):
+                        if m_.id == x_ and isinstance(m_.ctx, ast.Load):
+                            return ast.copy_location(ast.parse(f'self.superslab_inds[{i_}]', mode='eval').body, m_)
+                        return m_
+                n.body = [SubX().visit(b_) for b_ in n.body]
+                n.target = ast.copy_location(ast.Name(id=i_, ctx=ast.Store()), n.target)
+                n.iter = ast.copy_location(ast.parse('range(len(self.superslab_inds))', mode='eval').body, n.iter)
+                ast.fix_missing_locations(n)
+                from ..core.hodpass import _relink
+                _relink(fn)
     iloops = [n for n in walk_no_nested(fn) if isinstance(n, ast.For) and unparse(n.iter) == 'range(len(self.superslab_inds))']
     if len(iloops) != 1:
         raise AnalysisError('_load_subsamples: file loop not found')
     I = iloops[0]
     iv = I.target.id
+    # locals bound in the enclosing (file kind, sample) loops before the file loop starts: (name, value) in order
+    outer_binds = []
+    cur_ = I
+    while getattr(cur_, '_parent', None) is not None and cur_._parent is not fn:
+        par_ = cur_._parent
+        if isinstance(par_, ast.For):
+            pre_ = []
+            for st_ in par_.body:
+                if st_ is cur_:
+                    break
+                if isinstance(st_, ast.Assign) and len(st_.targets) == 1 and isinstance(st_.targets[0], ast.Name) and st_.targets[0].id != 'colname':
+                    pre_.append((st_.targets[0].id, st_.value))
+            outer_binds = pre_ + outer_binds
+        cur_ = par_
+    # running row cursor instead of the prefix-sum table:  E = 0 before the file loop (once per sweep);  S = E; E = S + [int(]N_halo_per_file[i][)]
+    # at the top of the body; no other store.  Then S = sum(N_halo_per_file[:i]) and E = sum(N_halo_per_file[:i+1]): the table entries i and i+1.
+    cursor_ok = False
+    if len(I.body) >= 2 and all(isinstance(b_, ast.Assign) and len(b_.targets) == 1 and isinstance(b_.targets[0], ast.Name) for b_ in I.body[:2]) \
+            and isinstance(I.body[0].value, ast.Name):
+        S_, E_ = I.body[0].targets[0].id, I.body[0].value.id
+        adv_ = unparse(I.body[1].value).replace(' ', '')
+        par_ = getattr(I, '_parent', None)
+        resets = [b_ for b_ in getattr(par_, 'body', []) if isinstance(b_, ast.Assign) and len(b_.targets) == 1 and unparse(b_.targets[0]) == E_] if isinstance(par_, ast.For) else []
+        nst = {nm: sum(1 for m_ in walk_no_nested(fn) if isinstance(m_, ast.Name) and m_.id == nm and isinstance(m_.ctx, ast.Store)) for nm in (S_, E_)}
+        if I.body[1].targets[0].id == E_ and adv_ in (f'{S_}+int(N_halo_per_file[{iv}])', f'{S_}+N_halo_per_file[{iv}]', f'{E_}+int(N_halo_per_file[{iv}])') \
+                and len(resets) == 1 and unparse(resets[0].value) in ('0', 'np.uint64(0)', 'np.int64(0)') and par_.body.index(resets[0]) < par_.body.index(I) \
+                and nst == {S_: 1, E_: 2} and S_ != E_:
+            class SubC(ast.NodeTransformer):
+                def visit_Name(s_, m_):
+                    if isinstance(m_.ctx, ast.Load) and m_.id in (S_, E_):
+                        return ast.copy_location(ast.parse(f'halo_file_offsets[{iv}]' if m_.id == S_ else f'halo_file_offsets[{iv} + 1]', mode='eval').body, m_)
+                    return m_
+            I.body = [ast.fix_missing_locations(SubC().visit(b_)) for b_ in I.body[2:]]
+            from ..core.hodpass import _relink as _rl
+            _rl(fn)
+            outer_binds = [(k_, v_) for k_, v_ in outer_binds if k_ != E_]
+            cursor_ok = True
+    STATE['cursor_ok'] = cursor_ok
+    inner_stores = {m_.id for b_ in I.body for m_ in ast.walk(b_) if isinstance(m_, ast.Name) and isinstance(m_.ctx, ast.Store)}
+    outer_binds = [(k_, v_) for k_, v_ in outer_binds if k_ not in inner_stores]
     # the keyword table handed to the kernels, by constant propagation of the per-file loop body for every
     # (cleaned, subsample, file kind); values that are not constants are carried as canonical expression text
     from ..core.pe import PE, Sym, Undecided, Raised
     rows = f'halo_file_offsets[{iv}]:halo_file_offsets[{iv} + 1]'
+    # the elements of the list of open cleaning files are file objects (never None): `clean_afs = [asdf.open(...) for ...]`, bound once
+    lst0 = [n for n in walk_no_nested(fn) if isinstance(n, ast.Assign) and unparse(n.targets[0]) == 'clean_afs']
+    nonnull_ = ('clean_afs[',) if len(lst0) == 1 and isinstance(lst0[0].value, ast.ListComp) and isinstance(lst0[0].value.elt, ast.Call) \
+        and dotted(lst0[0].value.elt.func) == 'asdf.open' else ()
     outs_ok, okc_all = True, True
+    srcs_sem = {}
     seen_calls = set()
     for cleaned in (True, False):
         for AB in ('A', 'B'):
@@ -160,8 +238,11 @@ def call_site(chk):
             problems = []
             for rvpid in ('rv', 'pid'):
                 pe = PE(symbolic=True)
+                pe.nonnull = nonnull_
                 env = {'AB': AB, 'cleaned': cleaned, 'rvpid': rvpid, 'colname': {'rv': 'rvint', 'pid': 'packedpid'}[rvpid]}
                 try:
+                    for k_, v_ in outer_binds:
+                        env[k_] = pe.ev(v_, env)
                     pe.block(I.body, env)
                 except (Undecided, Raised) as e:
                     if str(e).startswith('condition '):
@@ -178,6 +259,7 @@ def call_site(chk):
                     continue
                 seen_calls.add(wantfn)
                 kw = kc_[0][2]
+                srcs_sem[(cleaned, AB, rvpid)] = {k: (v.text if isinstance(v, Sym) else repr(v)) for k, v in kw.items() if k in ('slab_rvint', 'clean_slab_rvint', 'slab_packedpid', 'clean_slab_packedpid')}
                 txt_ = {k: (v.text if isinstance(v, Sym) else repr(v)) for k, v in kw.items()}
                 got_all[rvpid] = txt_
                 want = {'slab_read_offsets': f"self.halos['npstart{AB}'][{rows}]", 'slab_read_lens': f"self.halos['npout{AB}'][{rows}]"}
@@ -188,7 +270,7 @@ def call_site(chk):
                 if bad or extra_clean:
                     problems.append(f'{rvpid}: kernel receives {bad} (need {want}); cleaning arguments without cleaning: {extra_clean}')
                 wo_ = txt_.get('slab_write_offsets')
-                if wo_ != f"npstartAB_new['{AB}'][halo_file_offsets[{iv}]:halo_file_offsets[{iv} + 1] + np.uint64(1)]":
+                if (wo_ or '').replace('np.uint64(1)', '1') != f"npstartAB_new['{AB}'][halo_file_offsets[{iv}]:halo_file_offsets[{iv} + 1] + 1]":
                     problems.append(f'{rvpid}: write offsets slice is {wo_}')
                 if rvpid == 'rv' and not all(txt_.get(o) == f"self.subsamples.columns.get('{o}')" for o in ('pos', 'vel', 'rvint')):
                     outs_ok = False
@@ -196,7 +278,7 @@ def call_site(chk):
                       '', '; '.join(problems)[:700] + ': particles would be read with another halo\'s (or subsample\'s) range', node=I, nf=sorted(got_all.get('rv', {}).items())[:6])
     txt = [unparse(s) for s in walk_no_nested(fn) if isinstance(s, ast.stmt)]
     from ..core.idioms import offsets_table
-    okoff = offsets_table(fn, 'halo_file_offsets', 'N_halo_per_file')
+    okoff = cursor_ok or offsets_table(fn, 'halo_file_offsets', 'N_halo_per_file')
     chk.check(okoff, 'C01-R3', CAT, q, 'file row ranges = prefix sums of the per-file halo counts', '', 'halo_file_offsets is no longer the prefix sum of the per-file counts', node=fn)
     # the rv kernel decodes into the subsample table's own columns; the pid kernel receives every PID field column
     pf = [s for s in walk_no_nested(I) if isinstance(s, ast.For) and unparse(s.iter) == 'bitpacked.PID_FIELDS']
@@ -221,11 +303,52 @@ def call_site(chk):
         oklst = unparse(g.iter) == 'self.superslab_inds' and not g.ifs and v is not None and \
             ("f'cleaned_rvpid_{" + v + ":03d}.asdf'") in unparse(lst[0].value.elt) and 'self.clean_rvpid_dir' in unparse(lst[0].value.elt)
     okclean = okclean and oklst
+    # the same three facts read off the values that reach the kernels (constant propagation through locals, helpers and conditional
+    # expressions): where the particle records and the merged records of (file kind, AB, superslab i) come from
+    def _simp(t_):
+        class F(ast.NodeTransformer):
+            def visit_IfExp(s_, n):
+                n = s_.generic_visit(n)
+                if isinstance(n.test, ast.Constant):
+                    return n.body if n.test.value else n.orelse
+                return n
+
+            def visit_JoinedStr(s_, n):
+                n = s_.generic_visit(n)
+                vals = []
+                for v_ in n.values:
+                    if isinstance(v_, ast.FormattedValue) and v_.format_spec is None and v_.conversion in (-1, None) and isinstance(v_.value, ast.Constant) and isinstance(v_.value.value, str):
+                        v_ = ast.Constant(value=v_.value.value)
+                    if isinstance(v_, ast.Constant) and vals and isinstance(vals[-1], ast.Constant):
+                        vals[-1] = ast.Constant(value=str(vals[-1].value) + str(v_.value))
+                    else:
+                        vals.append(v_)
+                if len(vals) == 1 and isinstance(vals[0], ast.Constant):
+                    return vals[0]
+                n.values = vals
+                return n
+        try:
+            return unparse(ast.fix_missing_locations(F().visit(ast.parse(t_, mode='eval')))).replace('"', "'")
+        except SyntaxError:
+            return t_
+    sem_ok = len(srcs_sem) == 8
+    for (cl_, AB_, rp_), d_ in srcs_sem.items():
+        col_ = {'rv': 'rvint', 'pid': 'packedpid'}[rp_]
+        a_ = _simp(d_.get(f'slab_{col_}', ''))
+        want_a = f"asdf.open(Path(self.groupdir) / 'halo_{rp_}_{AB_}' / f'halo_{rp_}_{AB_}_{{self.superslab_inds[{iv}]:03d}}.asdf', lazy_load=True, memmap=False)[self.data_key]['{col_}'][:]"
+        if a_ != want_a:
+            sem_ok = False
+        if cl_ and _simp(d_.get(f'clean_slab_{col_}', '')) != f"clean_afs[{iv}][self.data_key]['{col_}_{AB_}'][:]":
+            sem_ok = False
+    if sem_ok:
+        okcm, okfile = True, True
+        okclean = oklst
     chk.check(okcm, 'C01-R4', CAT, q, 'raw column map rv -> rvint, pid -> packedpid', '', f'colname = {unparse(cm[0].value) if cm else None}', node=cm[0] if cm else fn)
     chk.check(okfile, 'C01-R4', CAT, q, 'particle file of superslab i, subsample AB', '', 'the particle file is not selected by (rv|pid, AB, superslab_inds[i])', node=I)
     chk.check(okclean, 'C01-R4', CAT, q, 'cleaning file i, column {colname}_{AB}', '', 'merged particles are not read from cleaning file i / column {colname}_{AB}', node=I)
     srcs = {k: outs.get(k) for k in ('slab_rvint', 'clean_slab_rvint', 'slab_packedpid', 'clean_slab_packedpid')}
     oks = srcs == {'slab_rvint': 'slab_particles', 'clean_slab_rvint': 'clean_slab_particles', 'slab_packedpid': 'slab_particles', 'clean_slab_packedpid': 'clean_slab_particles'}
+    oks = oks or sem_ok
     chk.check(oks, 'C01-R3', CAT, q, 'original source = particle file data, merged source = cleaning file data', f'{srcs}', f'kernel sources {srcs}', node=I, nontrivial=False)
     # R8
     ns = [s for s in fn.body if isinstance(s, ast.Assign) and unparse(s.targets[0]) == 'N_subsamp']
